@@ -363,6 +363,26 @@ def gen_units():
                "refs_of(__v@, filter_active(result_vars@, self.depths@, step_number as int, __i as int))"],
                "after": "proof { lemma_refs_toks(__v@, filter_active(result_vars@, self.depths@, step_number as int, result_vars@.len() as int), ','); "
                         "lemma_filter_tokenizable(result_vars@, self.depths@, step_number as int, result_vars@.len() as int); }"}}),
+        # C05/C13: `r0.and_then(|r0| r1.and_then(|r1| .. rn.map(|rn| (values))))` in branch order (R13: iter().rev().fold())
+        fn("generate_results_transposer", "r", attrs="#[verifier::loop_isolation(false)]\n",
+           requires=["result_vars@.len() >= 1", "all_tokenizable(result_vars@)",
+                     "return_vars is Some ==> all_tokenizable((**return_vars->0)@)"],
+           ensures=["r@ == transposer_toks(result_vars@, group(Delim::Paren, seq_toks_sep(match return_vars { Some(rv) => (**rv)@, None => result_vars@ }, ',')), 0)"],
+           closures={
+               "0": {"params": ["Option<TokenStream>", "&'b T"], "ret": "(r: Option<TokenStream>)", "requires": ["result_var_name.tokenizable()"],
+                     "ensures": ["transposer_step(acc, *result_var_name, group(Delim::Paren, seq_toks_sep(match return_vars { Some(rv) => (**rv)@, None => result_vars@ }, ',')), r)"]},
+               "1": {"params": [], "ret": "(r: Option<TokenStream>)",
+                     "ensures": ["r is Some && r->0@ =~= bind_toks(result_var_name.toks(), \"map\"@, group(Delim::Paren, seq_toks_sep(match return_vars { Some(rv) => (**rv)@, None => result_vars@ }, ',')))"]},
+               "2": {"params": [], "ret": "(r: TokenStream)", "ensures": ["r@ =~= group(Delim::Paren, seq_toks_sep(result_vars@, ','))"]},
+               "3": {"params": ["&'b &'b [T]"], "ret": "(r: TokenStream)", "requires": ["all_tokenizable((**return_vars)@)"], "ensures": ["r@ =~= group(Delim::Paren, seq_toks_sep((**return_vars)@, ','))"]},
+               "4": {"params": ["TokenStream"], "ret": "(r: Option<TokenStream>)",
+                     "ensures": ["r is Some && r->0@ =~= bind_toks(result_var_name.toks(), \"and_then\"@, acc@)"]},
+           },
+           iter_loops={"0": {"invariant": [
+               "__i <= __it.len()", "__it@ == result_vars@",
+               "opt_view(__acc) == if __i < result_vars@.len() { Some(transposer_toks(result_vars@, group(Delim::Paren, seq_toks_sep(match return_vars { Some(rv) => (**rv)@, None => result_vars@ }, ',')), __i as int)) } else { None::<Seq<Tok>> }",
+               "forall|a: Option<TokenStream>, v: &'b T| v.tokenizable() ==> __g.requires((a, v))",
+               "forall|a: Option<TokenStream>, v: &'b T, r: Option<TokenStream>| __g.ensures((a, v), r) ==> transposer_step(a, *v, group(Delim::Paren, seq_toks_sep(match return_vars { Some(rv) => (**rv)@, None => result_vars@ }, ',')), r)"]}}),
         # C13: the handler call
         fn("generate_handle", "r",
            ensures=["r@ == doc_handle(self.config.is_async, handler_kind(self.handler), results_var.toks(), handler_name.toks(), result_names_toks(self.branch_count as nat))"],
@@ -637,7 +657,7 @@ def build_plan(repo, module):
     if module == "builder":
         optargs = {"new": [0], "set_id": [0]}
     if module == "gen":
-        optargs = {"extract_results_tuple": [2, 3], "generate_def_and_step_streams": [0, 2], "wrap_last_step_stream": [1],
+        optargs = {"generate_results_transposer": [1], "extract_results_tuple": [2, 3], "generate_def_and_step_streams": [0, 2], "wrap_last_step_stream": [1],
                    "process_step_action_expr": [0]}
     return {"repo": repo, "units": u, "optargs": optargs}
 
@@ -655,11 +675,12 @@ OBLIGATIONS = {
             ("core", "ProcessExpr::replace_inner_exprs"), ("core", "ErrExpr::replace_inner_exprs"),
             ("core", "InitialExpr::replace_inner_exprs"), ("core", "ActionExpr::replace_inner_exprs"),
             ("core", "ExprGroup::replace_inner_exprs")],
-    "C04": [("gen", "JoinOutput::active_step_branch_count"), ("gen", "JoinOutput::extract_results_tuple"), ("gen", "lemma_refs_toks"), ("gen", "lemma_filter_tokenizable"),
+    "C04": [("gen", "JoinOutput::generate_results_transposer"), ("gen", "JoinOutput::active_step_branch_count"), ("gen", "JoinOutput::extract_results_tuple"), ("gen", "lemma_refs_toks"), ("gen", "lemma_filter_tokenizable"),
             ("gen", "JoinOutput::is_branch_active_in_step"), ("gen", "JoinOutput::generate_indexed_step_results_name"),
             ("gen", "JoinOutput::branch_result_name"), ("gen", "JoinOutput::branch_result_pat")],
     "C07": [("entries", "lemma_entry_table")],
-    "C13": [("guards", "new_guards"), ("gen", "JoinOutput::generate_handle"), ("gen", "JoinOutput::extract_results_tuple")],
+    "C13": [("guards", "new_guards"), ("gen", "JoinOutput::generate_handle"), ("gen", "JoinOutput::extract_results_tuple"), ("gen", "JoinOutput::generate_results_transposer")],
+    "C05": [("gen", "JoinOutput::generate_results_transposer")],
     "C12": [("builder", "ActionExprChainBuilder::build_from_parse_stream"), ("gen", "JoinOutput::branch_result_name"), ("gen", "JoinOutput::branch_result_pat")],
     "C15": [("parse", "parse_until_suffix"), ("builder", "ActionExprChainBuilder::build_from_parse_stream"), ("builder", "ActionExprChain::append_member"),
             ("builder", "lemma_append_facts"), ("builder", "lemma_balanced_depth"),
